@@ -709,6 +709,12 @@ func convertV(a *AVal, w int, signed bool) (*AVal, bool) {
 		v.Lo, v.Hi, v.Lin = new(big.Int).Set(a.Lo), new(big.Int).Set(a.Hi), a.Lin
 		return v.reduce(), false
 	}
+	// a wholly negative signed range converted to an unsigned type of at least its width: the two's-complement image, exactly
+	// (`uint64(n) > max` as the refusal of negative n)
+	if !signed && a.S && w >= a.W && a.Lo != nil && a.Hi != nil && a.Hi.Sign() < 0 {
+		v.Lo, v.Hi = new(big.Int).Add(a.Lo, pow2(w)), new(big.Int).Add(a.Hi, pow2(w))
+		return v.reduce(), true
+	}
 	return v.reduce(), true
 }
 
@@ -796,6 +802,38 @@ func cmpV(op string, a, b *AVal) *AVal {
 			if n == 1 && x.Bits[idx].K == BSym {
 				r := x.Bits[idx] // x != 0 ⇔ bit
 				if eq {
+					r = r.Not()
+				}
+				return &AVal{K: ABool, B: r}
+			}
+		}
+		// x ==/!= c where the two agree on every known bit and differ in knowledge at exactly one position: a symbolic bit of x
+		// against a known bit of c (`v&mask == mask`)
+		if a.W == b.W {
+			n, idx, agree := 0, -1, true
+			var sym, known Bit
+			for i := 0; i < a.W; i++ {
+				ba, bb := a.Bits[i], b.Bits[i]
+				ka, kb := ba.K == B0 || ba.K == B1, bb.K == B0 || bb.K == B1
+				switch {
+				case ka && kb:
+					if ba.K != bb.K {
+						agree = false
+					}
+				case ba.K == BSym && kb:
+					n, idx, sym, known = n+1, i, ba, bb
+				case bb.K == BSym && ka:
+					n, idx, sym, known = n+1, i, bb, ba
+				default:
+					n += 2
+				}
+			}
+			if agree && n == 1 && idx >= 0 {
+				r := sym // equal ⇔ the symbolic bit has the known bit's value
+				if known.K == B0 {
+					r = r.Not()
+				}
+				if !eq {
 					r = r.Not()
 				}
 				return &AVal{K: ABool, B: r}
